@@ -329,4 +329,24 @@ theorem dispatch_as_expected : Loops.dispatch =
      ("enumerate_for_each", "default_fns::for_each::for_each_with_ids(self,chunk_size,fun)"),
      ("fold", "default_fns::fold::fold(self,chunk_size,fold,neutral)")] := by decide
 
+
+/-! ## the iterator adaptors behind `values()` / `ids_and_values()` (`src/iter/wrappers/*.rs`) -/
+
+/-- `ConIterValues::next` is `ConcurrentIter::next` of the wrapped iterator: one `fetch_add(1)`, the element at the value read -/
+theorem values_next {ρ' : Type} (f : Nat) (it : ItH) :
+    (Values.next f ⟨it⟩ : PF ρ' _) = .faa .acqrel 1 (fun c => .ret (.norm (if c < it.len then some c else none))) := by
+  simp only [Values.next, m_fn, m_next, MNext.m_next, ItH.next, bind, PF.bind, LProg.bind, pure]
+
+/-- `ConIterIdsAndValues::next`: the same pull, returning the pair (source index, element) -/
+theorem ids_and_values_next {ρ' : Type} (f : Nat) (it : ItH) :
+    (IdsAndValues.next f ⟨it⟩ : PF ρ' _) = .faa .acqrel 1 (fun c => .ret (.norm (if c < it.len then some (c, c) else none))) := by
+  simp only [IdsAndValues.next, m_fn, m_next_id_and_value, bind, PF.bind, LProg.bind, pure, m_map]
+  congr 1
+  funext c
+  by_cases h : c < it.len <;> simp [h, m_map, LProg.bind, pure, bind, PF.bind]
+
+/-- both adaptors define `next` only: `nth`, `skip`, `step_by`, `count`, … are std's defaults over `next`, i.e. sequences of
+single pulls -/
+theorem wrappers_override_only_next : Values.iterator_overrides = ["next"] ∧ IdsAndValues.iterator_overrides = ["next"] := by decide
+
 end Orx.GenThms.Loops
